@@ -1,5 +1,7 @@
 import CueVerif.Driver.Proto
 import CueVerif.Spec.Disj
+import CueVerif.Model.DisjFinal
+import CueVerif.Model.DisjFrag
 namespace CueVerif.Driver.C04
 open CueVerif CueVerif.Driver CueVerif.Disj
 
@@ -17,6 +19,8 @@ ops:  model <expr> <probeBits> <concreteBits>   the transcribed algorithm's obse
       of its mask; <concreteBits> has the id bits of the concrete elements, <probeBits> those
       of the concrete MINIMAL elements — for a minimal p, "v unifies with p" is "p's bit is in
       v's mask")
+      order <expr>                  Disjunction.Values in the implementation's ORDER (unsorted) and NumDefaults
+                                    (transcription of finalizeDisjunctions' swap loop)
       class <expr>                  wf / no-nested-marks / flat / counts
       mode <hasDefault> <marked>, comb <a> <b>, comb2 <a> <b> <da> <db>   table cells -/
 
@@ -92,6 +96,12 @@ def handle (ws : List String) : String :=
       let o := eval bits e
       s!"vals={showNats o.values} acc={orAll o.values &&& pb}"
     | _, _ => "bad-op"
+  | ["order", es] =>
+    match parseExpr es with
+    | some e =>
+      let o := (eval bits e).ordered
+      s!"values={if o.1.isEmpty then "-" else ".".intercalate (o.1.map toString)} numDefaults={o.2}"
+    | none => "bad-op"
   | ["spec", es, ps, cs] =>
     match parseExpr es, ps.toNat?, cs.toNat? with
     | some e, some pb, some c =>
@@ -101,7 +111,7 @@ def handle (ws : List String) : String :=
   | ["class", es] =>
     match parseExpr es with
     | some e =>
-      s!"wf={boolStr e.WF} nn={boolStr e.NoNestedMarks} flat={boolStr e.Flat} chains={e.chains} marked={e.markedChains}"
+      s!"wf={boolStr e.WF} nn={boolStr e.NoNestedMarks} flat={boolStr e.Flat} chains={e.chains} marked={e.markedChains} markfree={boolStr (!e.hasAnyMark)} nested1={boolStr e.NestedSingle}"
     | none => "bad-op"
   | ["mode", a, b] =>
     match boolOf a, boolOf b with
